@@ -197,6 +197,26 @@ impl Duration {
     pub fn from_secs(s: u64) -> (r: Duration) ensures r.secs == s, r.nanos == 0 { unimplemented!() }
 }
 
+// comparisons of Durations compare the total time
+impl vstd::std_specs::cmp::PartialEqSpecImpl for Duration {
+    open spec fn obeys_eq_spec() -> bool { true }
+    open spec fn eq_spec(&self, other: &Duration) -> bool { self.total() == other.total() }
+}
+impl PartialEq for Duration {
+    #[verifier::external_body]
+    fn eq(&self, other: &Duration) -> (r: bool) { unimplemented!() }
+}
+impl vstd::std_specs::cmp::PartialOrdSpecImpl for Duration {
+    open spec fn obeys_partial_cmp_spec() -> bool { true }
+    open spec fn partial_cmp_spec(&self, other: &Duration) -> Option<core::cmp::Ordering> {
+        if self.total() < other.total() { Some(core::cmp::Ordering::Less) } else if self.total() == other.total() { Some(core::cmp::Ordering::Equal) } else { Some(core::cmp::Ordering::Greater) }
+    }
+}
+impl PartialOrd for Duration {
+    #[verifier::external_body]
+    fn partial_cmp(&self, other: &Duration) -> (r: Option<core::cmp::Ordering>) { unimplemented!() }
+}
+
 #[derive(Clone, Copy)]
 pub enum Runtime { Tokio1, AsyncStd1 }
 
